@@ -167,14 +167,20 @@ def judge(ctx, traces, parts, first_id=1):
 
 
 def twin_job(item):
-    """re-record rejected cases on the jittered twin of their series (same shape, no exact ties between candles)"""
-    entry, kw, sp, prefixes, field = item
-    spj = tuple(sp[:3]) + ((sp[3] if len(sp) > 3 else 1.0), "jitter")
+    """re-record rejected cases of one indicator on the jittered twins of their series (same shape, no exact ties)"""
+    entry, cases = item
+    out = []
     stats = {"calls": 0, "skipped": 0, "not_series": set(), "exc": {}}
     with contextlib.redirect_stdout(io.StringIO()):
-        c = D.build_series(spj)
-        c2 = D.build_series((spj[0], spj[1], spj[2] + 1000) + tuple(spj[3:]))
-        return record(entry, kw, spj, prefixes, c, c2, D.pscale_of(c), stats, only_field=field)
+        for kw, sp, prefixes, field in cases:
+            spj = tuple(sp[:3]) + ((sp[3] if len(sp) > 3 else 1.0), "jitter")
+            c = D.build_series(spj)
+            c2 = D.build_series((spj[0], spj[1], spj[2] + 1000) + tuple(spj[3:]))
+            try:
+                out.append(record(entry, kw, spj, prefixes, c, c2, D.pscale_of(c), stats, only_field=field))
+            except Exception:
+                out.append(None)
+    return out
 
 
 def confirm_and_report(ctx, cat, traces, verdicts):
@@ -184,16 +190,21 @@ def confirm_and_report(ctx, cat, traces, verdicts):
     normaliser or a wrap-around survives a 1e-6 jitter of the input, a last-bit tie does not."""
     by_name = {e["name"]: e for e in cat}
     rejected = [t for t in traces if verdicts[t["id"]][1] != "ok"]
-    items = [(by_name[t["hdr"]["ind"]], t["kw"], tuple(t["hdr"]["series"]), [e["len"] for e in t["ev"]], t["hdr"]["field"])
-             for t in rejected]
+    groups = {}
+    for t in rejected:
+        groups.setdefault(t["hdr"]["ind"], []).append(t)
+    names = sorted(groups)
+    items = [(by_name[n], [(t["kw"], tuple(t["hdr"]["series"]), [e["len"] for e in t["ev"]], t["hdr"]["field"])
+                           for t in groups[n]]) for n in names]
     twins = D.pmap(twin_job, items) if items else []
     twin_traces, owner = [], {}
-    for t, r in zip(rejected, twins):
+    for n, r in zip(names, twins):
         if isinstance(r, tuple) and r and r[0] in ("EXC", "CRASH"):
             continue
-        for x in r:
-            owner[len(twin_traces)] = t["id"]
-            twin_traces.append(x)
+        for t, xs in zip(groups[n], r):
+            for x in (xs or []):
+                owner[len(twin_traces)] = t["id"]
+                twin_traces.append(x)
     confirmed = {}
     if twin_traces:
         v2, _ = judge(ctx, twin_traces, parts=min(16, len(twin_traces)), first_id=len(traces) + 1)
